@@ -130,6 +130,14 @@ def cases_for(tier, rng):
                 body = [T('b1'), V('fx'), T('b2')]
                 cases.append(dict(prog=[Try([mk_try(body, list(names), False)], [([], [T('OUT:'), V('error_type')])], None)] + tail,
                                   src=sources(kw=ns6), K=0, fk=[]))
+    # 7. dtml-raise with an expression: the class is what the expression evaluates to, also when the text happens to be the
+    #    name of a well-known class; a text that cannot be evaluated falls back to that class
+    ns7 = dict(NS, AppErr=exccls('AppError'), LookupError=exccls('AppError'), KeyError=exccls('MultiError'))
+    for nm in ('AppErr', 'LookupError', 'KeyError', 'ValueError', 'nosuch'):
+        for names in (['AppError'], ['LookupError', 'AppError'], ['ValueError', ''], ['MultiError', 'KeyError'], ['Exception']):
+            body = [T('b1'), Raise(nm, [T('m-'), V('v')], x=True), T('b2')]
+            cases.append(dict(prog=[Try([mk_try(body, names, True)], [([], [T('OUT:'), V('error_type'), T('/'), V('error_value')])], None)] + tail,
+                              src=sources(kw=ns7), K=0, fk=[]))
     # 5. sub-template: return ends only the sub-template's call
     sub = tmpl('sub', [T('S1'), Try([Return(N('rv'))], [([], [T('never')])], None), T('S2')])
     ns = dict(NS, sub=sub)
